@@ -259,7 +259,7 @@ type hnode struct {
 	argIx  int       // index of the program argument carrying the leaf
 }
 
-var c13Pool = []string{"a", "b", "c", "d", "", "a b", "1x", "x-y", "a.b", "{k}", "k:v", "é√", "size", "key", "value", "str", "min", "max", "A", "B"}
+var c13Pool = []string{"a", "b", "c", "d", "", "a b", "1x", "x-y", "a.b", "{k}", "k:v", "é√", "size", "key", "value", "str", "min", "max", "A", "B", "a\\b", "q\"q"}
 
 func isPlainIdent(s string) bool {
 	if s == "" {
@@ -790,7 +790,9 @@ func quoteKeyIdent(k string, r *rand.Rand) string {
 	return "'" + k + "'"
 }
 
-func strLit(s string) string { return "\"" + s + "\"" } // pool keys contain neither quote nor backslash
+func strLit(s string) string {
+	return "\"" + strings.NewReplacer("\\", "\\\\", "\"", "\\\"").Replace(s) + "\""
+}
 
 func mapFnSrc(code int, c int64, key string) string {
 	switch code {
